@@ -438,12 +438,16 @@ func (r *Rule) transformArg(arg types.MatchData, argIdx int, cache map[transform
 		// Typical case: shared prefix cached → start computing from there.
 		startIdx := 0
 		value := arg.Value()
+		argValuePtr := unsafe.StringData(value)
+		argValueLen := len(value)
 		var errs []error
 
 		for i := len(r.transformationPrefixIDs) - 1; i >= 0; i-- {
 			key := transformationKey{
 				argKey:            argKeyPtr,
 				argIndex:          argIdx,
+				argValue:          argValuePtr,
+				argValueLen:       argValueLen,
 				argVariable:       arg.Variable(),
 				transformationsID: r.transformationPrefixIDs[i],
 			}
@@ -472,6 +476,8 @@ func (r *Rule) transformArg(arg types.MatchData, argIdx int, cache map[transform
 			key := transformationKey{
 				argKey:            argKeyPtr,
 				argIndex:          argIdx,
+				argValue:          argValuePtr,
+				argValueLen:       argValueLen,
 				argVariable:       arg.Variable(),
 				transformationsID: r.transformationPrefixIDs[i],
 			}
